@@ -2701,7 +2701,10 @@ class netcdf(PseudoNetCDFFile, NetCDFFile):
 
     def close(self):
         try:
-            return NetCDFFile.close(self)
+            # the C library recycles handle ids: closing an already closed
+            # dataset again would close whichever file now owns the id
+            if self.isopen():
+                return NetCDFFile.close(self)
         except Exception as e:
             warn(str(e))
 
